@@ -63,6 +63,17 @@ mixed do_op (string s, mixed hookarg) {
     ob = find_living (w[1]);
     VL ("r fl " + w[1] + " " + OID (ob) + " " + (t == "object" ? 1 : 0));
     break;
+  case "aa":
+    a = master()->get (w[1]);
+    if (!a) { VL ("r aa " + w[1] + " " + w[2] + " !gone"); break; }
+    a->x_aa (w[2]);
+    VL ("r aa " + w[1] + " " + w[2] + " ok");
+    break;
+  case "cmd":
+    a = master()->get (w[1]);
+    if (!a) { VL ("r cmd " + w[1] + " " + w[2] + " !gone"); break; }
+    VL ("r cmd " + w[1] + " " + w[2] + " " + (a->x_cmd (w[2]) ? 1 : 0));
+    break;
   case "kp":
     a = master()->get (w[1]);
     if (!a) { VL ("r kp " + my_oid () + " " + w[1] + " !gone"); break; }
@@ -70,7 +81,7 @@ mixed do_op (string s, mixed hookarg) {
     VL ("r kp " + my_oid () + " " + w[1] + " ok");
     break;
   case "rd":
-    VL ("r rd " + my_oid () + " " + OID (get_keep ()));
+    VL ("r rd " + my_oid () + " " + OID (get_keep ()) + " " + OID (get_keepa ()) + " " + OID (get_keepm ()));
     break;
   case "err":
     error ("boom\n");
